@@ -17,7 +17,7 @@ import pywire
 import schema_gen as sg
 import t1_go
 import t1_py
-from vlib import Broken, Check, run_workers
+from vlib import Broken, Check, clist, coq_eval_file, parse_zlist, run_workers
 
 LEVEL = "proof"
 
@@ -86,6 +86,63 @@ def check_names(t: sg.T, info: Dict[str, Any], path: str = "") -> Optional[str]:
     return None
 
 
+def generator_invalid(s: sg.Schema) -> Optional[str]:
+    """tools/schema_gen.py (read-only here) can draw the same `import <name>` twice in one file;
+    such a text is not a valid schema and is not a case of this property."""
+    for f in s.files:
+        names = [(a or s.files[fi].proto) for fi, a in f.imports]
+        if len(set(names)) != len(names):
+            return f"file {f.base}: duplicate import names {names}"
+    return None
+
+
+class Shards(pyside.Shards):
+    """pyside.Shards with a serial retry of a shard whose coqc run failed (time-out on a loaded
+    machine); a shard that fails twice is a broken obligation, the other shards still count."""
+
+    def run(self, header: str = HEADER, timeout: int = 900):  # type: ignore[override]
+        from concurrent.futures import ThreadPoolExecutor
+        import vlib
+        files, layout = [], []
+        for si in range(0, len(self.items), self.per):
+            chunk = self.items[si:si + self.per]
+            path = os.path.join(self.ck.dir, f"{self.tag}_{si // self.per}.v")
+            body, exprs, metas = [header], [], []
+            for defs, ex, me in chunk:
+                body.append(defs)
+                exprs.extend(ex)
+                metas.extend(me)
+            body.append("Definition results : list Z := " + clist(exprs) + ".")
+            body.append("Eval vm_compute in results.")
+            with open(path, "w") as f:
+                f.write("\n".join(body) + "\n")
+            files.append(path)
+            layout.append(metas)
+
+        def one(p):
+            try:
+                return coq_eval_file(p, timeout)
+            except Broken as b:
+                return b
+
+        with ThreadPoolExecutor(max_workers=vlib.NCPU) as ex:
+            outs = list(ex.map(one, files))
+        res = []
+        for path, metas, out in zip(files, layout, outs):
+            if isinstance(out, Broken):
+                out = one(path)                       # retry, now alone
+            if isinstance(out, Broken):
+                self.ck.broken(out)
+                continue
+            codes = parse_zlist(out, path)
+            if len(codes) != len(metas):
+                self.ck.broken(Broken(f"case file {os.path.basename(path)}: {len(metas)} cases but {len(codes)} results",
+                                      out[-1500:]))
+                continue
+            res.extend(zip(metas, codes))
+        return res
+
+
 def excerpt(gen: Dict[str, str], limit: int = 6000) -> Dict[str, str]:
     return {k: (v if len(v) <= limit else v[:limit] + "\n...[truncated]") for k, v in gen.items()}
 
@@ -104,12 +161,17 @@ def run(ck: Check) -> None:
         vals = [sg.value_from_json(s.top, v) for v in j.get("values", [])]
         cases.append((s, vals, "corpus:" + os.path.basename(j["_path"])))
     n_corpus = len(cases)
-    cases.extend(pywire.gen_cases(ck, ns, nv))
+    n_invalid = 0
+    for c in pywire.gen_cases(ck, ns, nv):
+        if generator_invalid(c[0]):
+            n_invalid += 1
+        else:
+            cases.append(c)
 
     jobs = [dict(id=i, dir=os.path.join(ck.dir, f"s{i}"), files=s.texts) for i, (s, _, _) in enumerate(cases)]
     results = run_workers("run_go.py", jobs, chunk=max(5, len(jobs) // 32))
 
-    sh = pyside.Shards(ck, "c19", per_shard=8)
+    sh = Shards(ck, "c19", per_shard=8 if ck.quick else 5)
     n_eval = 0
     distinct = set()
     impl_fail = 0
@@ -163,7 +225,7 @@ def run(ck: Check) -> None:
             metas.append((i, "dec", k))
         sh.add(defs, exprs, metas)
 
-    out = sh.run(header=HEADER) if ck.model_ok else []
+    out = sh.run(header=HEADER, timeout=900 if ck.quick else 2400) if ck.model_ok else []
     counts: Dict[str, int] = {}
     n_model = n_prop = 0
     for (i, kind, k), code in out:
@@ -219,7 +281,7 @@ def run(ck: Check) -> None:
     cov["tie"] = {**cov.get("tie", {}), "schemas": len(cases), "corpus": n_corpus,
                   "t1_parsed": len(cases) - impl_fail - len(t1_fail), "t1_rejected": len(t1_fail),
                   "codes": counts, "property_mismatches": n_prop, "model_mismatches": n_model,
-                  "impl_failures": impl_fail, "go_executed": False}
+                  "impl_failures": impl_fail, "generator_invalid_skipped": n_invalid, "go_executed": False}
     cov["distribution"] = sg.distribution([c[0] for c in cases])
     for (s, vals, origin), r in list(zip(cases, results))[:2]:
         if "go" in r:
